@@ -1139,3 +1139,12 @@ func (m *ServerModel) boolTest(root *FuncInfo, pred func(rhs ast.Expr) bool) (na
 	}
 	return "", true
 }
+
+// rnorm renders an expression of fi through fi's resolver (single-assignment locals are
+// replaced by what they stand for: data := rread.Data reads as rread.Data), without spaces.
+func (m *ServerModel) rnorm(fi *FuncInfo, e ast.Expr) string {
+	if e == nil {
+		return ""
+	}
+	return strings.ReplaceAll(m.resolver(fi).str(e), " ", "")
+}
